@@ -556,6 +556,7 @@ sim::CaseResult PtcSim::run(const sim::Options &o, const Json &plan)
         flags.emplace_back(new std::atomic<bool>(false));
     std::vector<long> fnCalls((size_t)nflags, 0);
     const bool yieldInPredicate = plan.getb("yield_in_predicate");
+    long flipCount = 0;  // flips applied so far (threads run one at a time)
 
     Model M;
     M.flags.assign((size_t)nflags, 0);
@@ -675,10 +676,20 @@ sim::CaseResult PtcSim::run(const sim::Options &o, const Json &plan)
             // the real call is not atomic (evaluating an exact-solution condition locks the problem definition, which
             // is a yield point): the value must agree with the model state at invocation or at return
             Range r = M.eval(id, now, true);
+            long flips0 = flipCount;
             bool v = (*ptc[(size_t)id])();
             Range r2 = M.eval(id, ss::nowNs(), false);
             r.lo = r.lo && r2.lo;
             r.hi = r.hi || r2.hi;
+            if (flipCount - flips0 >= 2)
+            {
+                // two or more flips of other threads landed inside this call: a flag may have held a value in between that
+                // neither the state at invocation nor the state at return shows (true -> false -> true); flags are the only
+                // non-monotone part of the model state, so only then is the call not judged
+                r.lo = false;
+                r.hi = true;
+                res.probes["eval-overlapped-by-two-or-more-flips(not judged)"]++;
+            }
             evals++;
             if (disturbed && M.nodes[(size_t)id].kind != "always" && M.nodes[(size_t)id].kind != "never")
                 interesting++;
@@ -706,6 +717,7 @@ sim::CaseResult PtcSim::run(const sim::Options &o, const Json &plan)
             int f = (int)(op.geti("flag") % nflags);
             bool v = op.getb("value");
             flags[(size_t)f]->store(v);
+            flipCount++;
             M.flags[(size_t)f] = v;
             if (v)
             {
